@@ -401,6 +401,11 @@ func edgeMeaning(cond string, succ int) string {
 func r1main(c *core.Ctx) {
 	const R = "R1.main"
 	c.Rule(R, "main connects, sets up NG and registers in this order (both modes) and hands the configuration to the drivers unchanged")
+
+	if who := mainDelegates(c); who != "" {
+		c.SoftUndecided("%s: main hands the modes over to %s; the main-level rules read the body of main only", R, who)
+		return
+	}
 	fn := mustFunc(c, pMain, "main")
 	c.Analysed(core.FuncName(fn))
 	p := core.NewPather(fn)
